@@ -138,7 +138,8 @@ fn oracle(case: &Case, obs: &mut Obs) -> Result<(), Fail> {
 	// source: raw payloads compressed with flate2/brotli directly
 	let mut raw: BTreeMap<Coord, Vec<u8>> = BTreeMap::new();
 	for (x, y, p) in &case.tiles {
-		raw.entry(Coord::new(case.z, 100 + *x as u32, 200 + *y as u32)).or_insert_with(|| p.bytes());
+		// around the corner where four 256-blocks of the level meet
+		raw.entry(Coord::new(case.z.max(9), 252 + *x as u32, 252 + *y as u32)).or_insert_with(|| p.bytes());
 	}
 	let stored: BTreeMap<Coord, Vec<u8>> = raw.iter().map(|(c, b)| (*c, util::compress(b, case.source_comp))).collect();
 	let mut set = TileSet { format: case.format, comp: case.source_comp, tiles: stored, raw: raw.clone(), pyramid: BTreeMap::new(), meta: case.meta.clone() };
